@@ -183,7 +183,7 @@ def extract_fixtures(force=False):
         shutil.rmtree(base, ignore_errors=True)
         rc, out, nonce = _run_driver(FIXTURES, ["--lib"], ["agl_fixtures"], "fixtures", tmp,
                                      os.path.join(SCRATCH, "target-fixtures"), "agl-fixtures-")
-        if rc != 0:
+        if rc != 0 or not any(f.endswith(".jsonl") for f in os.listdir(tmp)):
             shutil.rmtree(tmp, ignore_errors=True)
             raise CheckerBroken("fixture fact extraction failed:\n" + out[-4000:])
         os.rename(tmp, base)
